@@ -579,6 +579,8 @@ func (e *Env) evalIndex(x EIndex) TV {
 		return TV{Select(e.asTerm(base), idx), *base.T.Elem}
 	case KSet:
 		return TV{e.asSet(base).Mem(idx), tBool}
+	case KStr:
+		return TV{vc.strAt(e.asTerm(base), idx), tInt}
 	}
 	efail("index on %s", base.T)
 	return TV{}
@@ -956,6 +958,12 @@ func (vc *VC) declareOnce(key, text string) {
 func (vc *VC) strLen(s Term) Term {
 	vc.declareOnce("strlen", "(declare-fun strlen (Int) Int)\n(assert (forall ((s! Int)) (! (>= (strlen s!) 0) :pattern ((strlen s!)))))\n(assert (= (strlen 0) 0))\n(assert (forall ((s! Int)) (! (=> (= (strlen s!) 0) (= s! 0)) :pattern ((strlen s!)))))")
 	return app(SInt, "strlen", s)
+}
+
+// strAt is the byte at position i of a string (uninterpreted; bytes are 0..255).
+func (vc *VC) strAt(s, i Term) Term {
+	vc.declareOnce("strat", "(declare-fun strat (Int Int) Int)\n(assert (forall ((s! Int) (i! Int)) (! (and (>= (strat s! i!) 0) (< (strat s! i!) 256)) :pattern ((strat s! i!)))))")
+	return app(SInt, "strat", s, i)
 }
 
 func (vc *VC) strLit(s string) Term {
